@@ -19,7 +19,8 @@ RULE = (
     "{-2,-1,2,3} against the power law, Array.GetValues for list/tuple/ndarray/tuple-of-tuples/list-of-tuples, "
     "FixedArray.IndexAsScalar/ChangingIndex (Scalar with use_value_unit T/F, tuple, float; also on an int64 ndarray), "
     "each pair preceded by a lookup through the Unknown quantity (which accepts any unit name and converts nothing), "
-    "UnitSystemManager.ConvertToCurrent/ConvertScalarToCurrent with and without a current mapping. Metadata: "
+    "UnitSystemManager.ConvertToCurrent/ConvertScalarToCurrent with and without a current mapping and with an explicitly "
+    "given other database; ragged tuple-of-tuples keep their row shape. Metadata: "
     "re-expressed objects keep category and quantity type. Default oracle: for every category and every unit of "
     "its type Scalar/FractionScalar(category, unit=v) carries Convert(default_unit->v, default_value). Own-unit: "
     "GetValue(own unit) returns the stored value for simple, derived and empty quantities. Second configuration: "
@@ -59,6 +60,17 @@ class Checker:
         self.cats = {}
         for c in db.IterCategories():
             self.cats.setdefault(db.GetCategoryQuantityType(c), []).append(c)
+
+    def other_db(self):
+        """a database other than the one under test (the shipped table for the project database and vice versa),
+        alive at the same time and defining the shared symbols differently"""
+        if not hasattr(self, "_other"):
+            self._other = None
+            try:
+                self._other = variant_db() if len(self.db.unit_to_unit_info) > 100 else env.new_db("posc")
+            except Exception:
+                self._other = None
+        return self._other
 
     # ------------------------------------------------------------------------------------------
     def cmp(self, route, case, got, want, S):
@@ -229,6 +241,19 @@ class Checker:
                     ctx.record("route_shape:Array[%s].GetValues" % kind, dict(case, route=kind), "Array of %s converted to %r" % (kind, got))
                     continue
                 self.cmp("Array[%s].GetValues" % kind, case, [g for t in got for g in t], flat_w, flat_S)
+            # rows of different lengths keep their shape, position by position
+            if len(xs) >= 3:
+                ragged = [(xs[0],), (xs[1], xs[2]), (xs[2], xs[0], xs[1])]
+                rw = [[want[0]], [want[1], want[2]], [want[2], want[0], want[1]]]
+                rS = [[S[0]], [S[1], S[2]], [S[2], S[0], S[1]]]
+                for kind, cont in (("ragged tuple-of-tuples", tuple(ragged)), ("ragged list-of-tuples", list(ragged))):
+                    for how, got in (("GetValues", Array(cont, u, cat).GetValues(v)), ("CreateCopy(unit)", Array(cont, u, cat).CreateCopy(unit=v).GetValues())):
+                        ctx.ev()
+                        if len(got) != 3 or [len(t) for t in got] != [1, 2, 3]:
+                            ctx.record("route_shape:Array[ragged].%s" % how, dict(case, route=kind), "Array of %s %r converted to %r (row lengths changed)" % (kind, cont, got))
+                            continue
+                        for t, wrow, srow in zip(got, rw, rS):
+                            self.cmp("Array[%s].%s" % (kind, how), case, list(t), wrow, srow)
 
         R("Array", case, array_routes)
 
@@ -309,6 +334,18 @@ class Checker:
             s1 = m.ConvertScalarToCurrent(Scalar(xs[0], u, cat))
             self.cmp("ConvertScalarToCurrent", case, s1.GetValue(), w0, S0)
             self.meta("ConvertScalarToCurrent", case, s1, cat, qt, v)
+            # an explicitly given database decides the numbers (it may define the units differently from the singleton)
+            other = self.other_db()
+            if other is not None and qt in other.quantity_types and u in other.unit_to_unit_info and v in other.unit_to_unit_info and other.IsValidCategory(cat) and other.unit_to_unit_info[u].quantity_type == qt == other.unit_to_unit_info[v].quantity_type and other.GetCategoryQuantityType(cat) == qt:
+                wo = other.Convert(qt, u, v, xs[0])
+                So = [abs(wo) + abs(xs[0]) * 1e3 + 1e3]
+                g1 = m.ConvertToCurrent(cat, u, xs[0], other)
+                self.cmp("ConvertToCurrent(unit_database=other)", case, g1[0], [wo], So)
+                g2 = m.ConvertScalarToCurrent(Scalar(xs[0], u, cat), other)
+                self.cmp("ConvertScalarToCurrent(unit_database=other)", case, g2.GetValue(), [wo], So)
+                g3 = m.ConvertScalarToCurrent(Scalar(xs[0], u, cat), unit_database=other)
+                self.cmp("ConvertScalarToCurrent(unit_database=other)", case, g3.GetValue(), [wo], So)
+                ctx.cls("manager_routes_with_explicit_other_database")
             # a system that does not map this category leaves the amount unchanged
             m2 = UnitSystemManager()
             m2.AddUnitSystem("sys", "cap", {"__other__": "x"})
